@@ -153,11 +153,12 @@ CHECKS = {
              '`parent` -- are lowered per run. For every forest of <= 5 DIEs (6 thorough) in any number of units and of any shape (childless units, deep '
              'nesting), with arbitrary ascending offsets: the iterator yields every DIE exactly once in section order, its ancestor stack holds exactly '
              'the offsets of the DIE\'s ancestors, parent() is the parent, and after the last DIE it equals end(). For every unit tree shape of <= 5 DIEs '
-             '(7 thorough; shapes enumerated, offsets symbolic) the parent table lists every DIE once, in ascending offset order, with its true parent.',
+             '(6 thorough; shapes enumerated, offsets symbolic) the parent table lists every DIE once, in ascending offset order, with its true parent; parent_cache::find (cache and lower_bound modelled), called for any two DIEs '
+             'of any forest of <= 3 DIEs on one cache, returns each DIE\'s true parent offset.',
         design_ref='DESIGN.md section 4 C02',
         note='bounded; assumed contract on elfutils (props/c02/dw_model*.h: dwarf_child, dwarf_siblingof, dwarf_offdie, dwarf_dieoffset, dwarf_nextcu on a '
              'well-formed section; error returns not modelled). SLICE: the DIE producers of builtin-dw.cc, attributes, labels/forms, root_cache, '
-             'parent_cache::find (std::map + lower_bound) are not covered. Also serves the parent/child agreement of C05 for the raw view, not claimed there.',
+             are not covered. Also serves the parent/child agreement of C05 for the raw view, not claimed there.',
         technique='bounded unwinding (CBMC, unwinding assertions) of C lowered from the real C++ per run, against a forest model of libdw',
     ),
     'C03': dict(
